@@ -346,7 +346,14 @@ class NetworkService(ModelElement):
             raise TopologyException(f'Interface {interface} is already connected to another service.')
         # create a peer interface, create a link between them
         # FIXME: copy labels from the interface into peer_labels (only needed in L3VPN, but why not?)
-        peer_if = Interface(name='-'.join([parent.name, interface.name]),
+        peer_name = '-'.join([parent.name, interface.name])
+        for cp in self.topo.graph_model.get_all_ns_or_link_connection_points(link_id=self.node_id):
+            _, cp_props = self.topo.graph_model.get_node_properties(node_id=cp)
+            if cp_props.get(ABCPropertyGraph.PROP_NAME, None) == peer_name:
+                raise TopologyException(f'Service {self.name} already has an interface named {peer_name}.')
+        if not self.topo.graph_model.check_node_unique(label=ABCPropertyGraph.CLASS_Link, name=peer_name + '-link'):
+            raise TopologyException(f'A link named {peer_name}-link already exists.')
+        peer_if = Interface(name=peer_name,
                             parent_node_id=self.node_id,
                             etype=ElementType.NEW, topo=self.topo, itype=InterfaceType.ServicePort)
         # link type is determined by the type of interface = L2Path for shared, Patch for Dedicated
